@@ -6,3 +6,4 @@ INFO = {'not_decided': ['class-body reads of names the class itself binds (exclu
         'stated_lemmas': ['induction on the depth of the scope chain: each scope kind computes its step of the resolution rule from its parent\'s `names`'],
         'trusted': []}
 import contracts.scopes_bounded  # noqa
+import props._all  # noqa
